@@ -146,7 +146,7 @@ void constructCommon(ModelSignature model,
         if (!filename.empty()){
             { // copy current into old and write to current
                 std::ifstream current_state(filename, std::ios::binary);
-                std::ofstream previous_state(filename, std::ios::binary);
+                std::ofstream previous_state(filename_old, std::ios::binary);
                 previous_state << current_state.rdbuf();
             }
             std::ofstream ofs(filename, std::ios::binary);
